@@ -14,6 +14,7 @@ package bus
 //@   loop 1 invariant start>>4 <= phi1 && (phi1 <= (end>>4)+1 || phi1 == start>>4)
 //@   loop 1 invariant all(k, uint32, k < 1<<20 ==> b.segment[k] == ite(start>>4 <= k && k < phi1, mem, old(b.segment[k])))
 //@   loop 1 decreases (end>>4) + 1 - phi1
+//@   loop 1 names x
 //@   loop 1 modifies b.segment
 
 //@ func (*Bus).EaRead
@@ -52,6 +53,7 @@ package bus
 //@   loop 1 invariant all(j, uint32, j < l1phi1-start && isnil(b.segment[(start+j)>>4]) ==> data[j] == old(data[j]))
 //@   loop 1 invariant all(j, uint32, j >= l1phi1-start && int(j) < len(data) ==> data[j] == old(data[j]))
 //@   loop 1 decreases (end>>4) + 1 - l1phi3
+//@   loop 1 names a i k
 //@   loop 1 modifies data
 //@   loop 2 invariant start <= l2phi1 && l2phi1 <= end+1 && l2phi2 == int(l2phi1-start)
 //@   loop 2 invariant l2phi1 == end+1 || l2phi1>>4 == l1phi3 || l2phi1 == (l1phi3+1)<<4
@@ -59,6 +61,7 @@ package bus
 //@   loop 2 invariant all(j, uint32, j < l2phi1-start && isnil(b.segment[(start+j)>>4]) ==> data[j] == old(data[j]))
 //@   loop 2 invariant all(j, uint32, j >= l2phi1-start && int(j) < len(data) ==> data[j] == old(data[j]))
 //@   loop 2 decreases end + 1 - l2phi1
+//@   loop 2 names a i
 //@   loop 2 modifies data
 //@   loop 3 invariant start <= l3phi1 && l3phi1 <= end+1 && l3phi2 == int(l3phi1-start)
 //@   loop 3 invariant l3phi1 == end+1 || l3phi1>>4 == l1phi3 || l3phi1 == (l1phi3+1)<<4
@@ -66,6 +69,7 @@ package bus
 //@   loop 3 invariant all(j, uint32, j < l3phi1-start && isnil(b.segment[(start+j)>>4]) ==> data[j] == old(data[j]))
 //@   loop 3 invariant all(j, uint32, j >= l3phi1-start && int(j) < len(data) ==> data[j] == old(data[j]))
 //@   loop 3 decreases end + 1 - l3phi1
+//@   loop 3 names a i
 //@   loop 3 modifies data
 
 //@ func New
